@@ -26,7 +26,8 @@ import sys
 from ..pipeline import workdir
 from ..tla import lit, run_tlc, TLASet
 
-CH = {"amp": "&", "lt": "<", "gt": ">", "dq": '"', "sq": "'", "a": "a"}
+CH = {"amp": "&", "lt": "<", "gt": ">", "dq": '"', "sq": "'", "a": "a", "semi": ";", "hash": "#", "d": "6", "xx": "x"}
+BASE = ["amp", "lt", "gt", "dq", "sq", "a"]      # the product is taken over these; the other (ordinary) classes occur in shaped values
 ENT = {"amp": ["&amp;", "&#38;", "&#x26;"], "lt": ["&lt;", "&#60;", "&#x3c;", "&#x3C;"], "gt": ["&gt;", "&#62;", "&#x3e;", "&#x3E;"],
        "dq": ["&quot;", "&#34;", "&#x22;"], "sq": ["&#39;", "&apos;", "&#x27;"]}
 ENT_REV = {e: c for c, es in ENT.items() for e in es}
@@ -342,8 +343,13 @@ def run(ctx):
     quick = ctx.tier == "quick"
     maxlen = 3 if quick else 4
     model_run(ctx, maxlen)
-    strings = [combo for n in range(0, maxlen + 1) for combo in itertools.product(list(CH), repeat=n)]
+    strings = [combo for n in range(0, maxlen + 1) for combo in itertools.product(BASE, repeat=n)]
     extra = [("amp", "a", "amp"), ("lt", "sl" if False else "a", "gt", "dq", "sq", "amp")]
+    # values shaped like character references / entities (the value is text, not markup: its '&' is escaped like any other)
+    refs = [("amp", "a", "semi"), ("amp", "a", "a", "semi"), ("amp", "hash", "d", "semi"), ("amp", "hash", "d", "d", "semi"),
+            ("amp", "hash", "xx", "d", "semi"), ("amp", "a")]
+    extra += refs + [("a",) + r + ("lt",) for r in refs] + [r + r for r in refs[:3]] + [r + ("dq", "sq") for r in refs[:3]] \
+        + [("amp",) + r for r in refs[:3]] + [("amp", "a", "semi", "a", "amp", "hash", "d", "semi", "gt")]
     strings += [e for e in extra if e not in strings]
     with multiprocessing.get_context("fork").Pool(16) as pool:
         res = pool.map(_render_site, [(s, strings) for s in SITES])
